@@ -20,6 +20,7 @@ HERE = os.path.dirname(os.path.dirname(os.path.abspath(__file__)))
 EVIDENCE_DIR = os.environ.get("VERIF_EVIDENCE_DIR") or os.path.join(HERE, "evidence")
 REPLAY_DIR = os.environ.get("VERIF_REPLAY_DIR") or os.path.join(HERE, "replays")
 FINDINGS_DIR = os.path.join(HERE, "findings")
+REGRESS_DIR = os.path.join(HERE, "regressions")  # saved shrunk failures of repaired defects, replayed on every run
 KNOWN_FILE = os.path.join(HERE, "known_findings.json")
 
 NCPU = min(16, os.cpu_count() or 1)
@@ -481,10 +482,39 @@ class Runner:
         for r in results:
             p.merge(r)
 
+    def _regress(self, name, fn):
+        """Replay tier: every saved failing case of a repaired defect for this part is executed
+        directly (no Hypothesis).  It must pass now; if the defect returns it fails in seconds."""
+        import glob
+        files = sorted(glob.glob(os.path.join(REGRESS_DIR, "%s-%s-*.json" % (self.prop, name))))
+        if not files:
+            return
+        st = self._part(name)
+        ctx = Ctx(st, self._is_known)
+        for path in files:
+            try:
+                with open(path) as fh:
+                    d = json.load(fh)
+                case = _unpack(d["case_pickle"])
+            except Exception as e:  # an unreadable file is a harness problem, not a verdict
+                st.errors.append("regression file %s unreadable: %r" % (path, e))
+                continue
+            ctx.frozen = False
+            v = None
+            try:
+                v = _run_case(ctx, fn, case, st)
+            except HarnessAbort:
+                pass
+            st.classes["regression-replayed"] += 1
+            if v is not None:
+                st.failures.append(_failure_record(v))
+
     def hyp(self, name, strategy, fn, examples, workers=None, shrink="hyp"):
         """Run `fn(ctx, case)` on `examples` generated cases per worker."""
         if self._replaying(name, fn):
             return
+        if not self.in_worker:
+            self._regress(name, fn)
         workers = workers or NCPU
         if self.in_worker:
             if self.worker[0] != name:
@@ -503,6 +533,8 @@ class Runner:
         returning one; it is only called where the list is needed)."""
         if self._replaying(name, fn):
             return
+        if not self.in_worker:
+            self._regress(name, fn)
         if self.in_worker:
             if self.worker[0] != name:
                 return
